@@ -10,6 +10,7 @@ import re
 from unitlib import AnchorLost, code_mask, match_delim
 import prelude as P
 import dialing_parts
+import network_api_parts
 
 NAME = 'active_peers'
 BACKEND = 'verus'
@@ -491,6 +492,7 @@ impl DisconnectReason {
     ensures
         final(active_peers).0.view() =~~= rm_sid_spec(old(active_peers).0.view(), connection.peer, connection.sid, reason_of(close_reason)), // @OBL InboundRequestHandler::start::tail::removes_own_entry_only [C04,C05,C09] when a connection's handler exits it removes exactly its own entry (matched by stable id) with the mapped reason; a replaced connection's exit changes nothing
 """)
+    t += network_api_parts.build(C)
     t += C.helpers_here()
     t += P.FOOTER
     return t
